@@ -40,7 +40,7 @@ m = {
         {"name": "seqmc2", "path": "/verif/engines/ws-seq2", "serves_properties": sorted(k for k, t in table.items() if any(e["engine"] == "seqmc2" for e in t["subchecks"])), "kind_free_text": "the seqmc map/growth checks against the crate built with real parking_lot and the std hasher"},
         {"name": "srcmc", "path": "/verif/engines/ws-src", "serves_properties": sorted(k for k, t in table.items() if any(e["engine"] == "srcmc" for e in t["subchecks"])), "kind_free_text": "bounded-exhaustive trees x source kinds (FileSystem, Zip, Tar, Embedded) against the generating tree"},
         {"name": "valmc", "path": "/verif/engines/ws-val", "serves_properties": sorted(k for k, t in table.items() if any(e["engine"] == "valmc" for e in t["subchecks"])), "kind_free_text": "bounded-exhaustive load inputs, SharedBytes/SharedString inputs and OnceInitCell outcome sequences against reference functions"},
-        {"name": "kernmc", "path": "/verif/engines/ws-loom", "serves_properties": sorted(k for k, t in table.items() if any(e["engine"] == "kernmc" for e in t["subchecks"])), "kind_free_text": "loom 0.7.2 on the syn-rewritten source text of the lock-free kernels"},
+        {"name": "kernmc", "path": "/verif/engines/ws-loom", "serves_properties": sorted(k for k, t in table.items() if any(e["engine"].startswith("kernmc") for e in t["subchecks"])), "kind_free_text": "loom 0.7.2 on the syn-rewritten source text of the lock-free kernels; one binary per kernel family (kernmc_bytes, kernmc_cell, kernmc_entry, kernmc_answers)"},
     ],
     "checks": checks,
     "not_applicable": na,
